@@ -3,7 +3,29 @@ Property theorems for Knapsack.  Only statements + proofs of properties (helper 
 Env/Knapsack/Lemmas.lean).  Sections are named after the property they belong to.
 -/
 import JumanjiModel.Env.Knapsack.Lemmas
+import JumanjiModel.Env.Knapsack.Bounds
 open Jm Knapsack
+
+namespace Props.C01
+/-- `reset` (any budget, any sampled weights/values of the unit interval): every leaf of the observation lies in
+the interval `obsBounds` lists for it (weights, values ∈ [0,1]; packed_items, action_mask ∈ {0,1}) -/
+theorem knapsack_reset_obs_in_bounds (n : Nat) (budget : Rat) (w v : List Rat) (h : validDraw n w v) :
+    Jm.OB.InBounds obsBounds (obsLeaves (reset budget w v).2.obs) := Knapsack.reset_obs_in_bounds n budget w v h
+
+/-- every step (any rounding, either reward function, ANY action, valid or not, terminal step included) from a
+state whose weights and values lie in the unit interval -/
+theorem knapsack_step_obs_in_bounds (rnd : Rat → Rat) (dense : Bool) (s : State) (a : Int) (h : UnitItems s) :
+    Jm.OB.InBounds obsBounds (obsLeaves (step rnd dense s a).2.obs) := Knapsack.step_obs_in_bounds rnd dense s a h
+
+/-- the invariant `UnitItems` is established by `reset` and preserved by every step -/
+theorem knapsack_reset_unit (n : Nat) (budget : Rat) (w v : List Rat) (h : validDraw n w v) :
+    UnitItems (reset budget w v).1 := Knapsack.reset_unitItems n budget w v h
+theorem knapsack_step_unit (rnd : Rat → Rat) (dense : Bool) (s : State) (a : Int) (h : UnitItems s) :
+    UnitItems (step rnd dense s a).1 := Knapsack.step_unitItems rnd dense s a h
+
+example : validDraw 2 [1/2, 1/4] [1, 0] := by decide +kernel
+example : UnitItems ⟨[1/2, 1/4], [1, 1], [false, true], 1/2⟩ := by decide +kernel
+end Props.C01
 
 namespace Props.C04
 /-- the mask bit of item `a` is set exactly when the rules allow packing it -/
